@@ -21,7 +21,7 @@ Theorem C15_gen_tlv_arith_eq :
     /\ gen_tlv_payload data l = slice 2 (N.to_nat l + 1) data
     /\ gen_tlv_rest data l = skipn (N.to_nat l + 1) data
     /\ gen_tlv_more data l = negb (length data <? 2)
-    /\ gen_tlv_overflow data l = (31 <? length data).
+    /\ gen_tlv_overflow data l = negb (31 <? length data).
 Proof.
   exact (fun data l => conj (gen_tlv_fits_eq data l) (conj (gen_tlv_payload_eq data l) (conj (gen_tlv_rest_eq data l)
          (conj (gen_tlv_more_eq data l) (gen_tlv_overflow_eq data l))))).
